@@ -271,6 +271,29 @@ impl BoundsAnalyzer {
         Self::analyze_with_options(domain, constraints, BoundsOptions::default())
     }
 
+    /// The constraints in the form the linearizer lowers them in (flattened and
+    /// simplified). Bounds are inferred from this form so that the spelling of
+    /// a constant (-2 * x, x * -2, (0 - 2) * x, a negative literal read back as
+    /// a unary minus) cannot change which bounds are found.
+    pub(crate) fn lowered_constraints(constraints: &[Constraint]) -> Vec<Constraint> {
+        constraints
+            .iter()
+            .map(|constraint| {
+                let lhs = constraint.lhs().clone().flatten().simplify();
+                if constraint.is_logic_assertion() {
+                    Constraint::new_logic_assertion(lhs, constraint.name().to_string())
+                } else {
+                    Constraint::new(
+                        lhs,
+                        constraint.constraint_type(),
+                        constraint.rhs().clone().flatten().simplify(),
+                        constraint.name().to_string(),
+                    )
+                }
+            })
+            .collect()
+    }
+
     fn analyze_with_options(
         domain: &IndexMap<String, DomainVariable>,
         constraints: &[Constraint],
